@@ -8,20 +8,25 @@ import Uflow.Lemmas.RateErr
 * `mode = eqn _ → rttS.isSome`
 * every entry of `recvSet` has `ts ≤ now`
 * `mode = slowStart (some t) → t ≤ now`
-* `2 * sendRate ≤ u32max`
 
 Under `RateInv`, `step` returns `.ok` unless the bisection `tcpInv` runs out of its fuel
 (`Trap.hang`). `RateInv` holds for `init`, and is preserved by `notifyFrameSent` / `step` when time
-does not run backwards and the ceiling is below `2^31`.
+does not run backwards (for EVERY ceiling `maxSendRate`: the slow-start doubling is
+`send_rate.saturating_mul(2)`, which cannot overflow).
 
 Residual assumption on the float operations (NOT proved for IEEE binary64, to be discharged
 outside): `BisectConverges ops := BisectWithin ops bisectFuel ops.zero ops.one`, i.e. whatever
 halves are chosen, bisecting `[0,1]` reaches within 2200 halvings a bracket whose midpoint `feq`s
 one of its ends.
 
+Model revision: the slow-start doubling is `self.send_rate.saturating_mul(2)` (it was `2 * self.send_rate`,
+which overflowed `u32` for ceilings `≥ 2^31`: the former finding `C03_rate_overflow_witness`, repaired in the
+Rust code). `C03_rate_saturate_example` is that run: with a ceiling of `2^31` (or `u32::MAX`) a saturated
+initial rate (RTT sample 0) followed by a slow-start doubling now returns; the doubling saturates at
+`u32::MAX` and is capped to the ceiling. Consequently the hypothesis `maxSendRate < 2^31` and the invariant
+component `2 * sendRate ≤ u32max` of the previous revision are gone.
+
 FINDINGS (`…_witness`):
-* `C03_rate_overflow_witness`: the bound `maxSendRate < 2^31` is tight; with a ceiling of `2^31`
-  a saturated initial rate (RTT sample 0) makes the next slow-start doubling overflow `u32`.
 * `C03_rate_time_witness`: a clock going backwards traps (u64 subtraction).
 * `C03_rate_hang_witness`: without `BisectConverges` the bisection hangs.
 -/
@@ -51,7 +56,7 @@ theorem C03_rate_notrap_conv (ops : FloatOps F) (s : State F) (now : Nat)
 
 example : BisectConverges Ex.okOps ∧
     RateInv (Ex.st (.slowStart (some 0)) 20000 100000 [⟨u32max, 0, true⟩] (some 10)) 50 := by
-  refine ⟨Ex.mkOps_converges _ _ _, ?_, ?_, ?_, ?_, ?_⟩
+  refine ⟨Ex.mkOps_converges _ _ _, ?_, ?_, ?_, ?_⟩
   · intro _; exact List.cons_ne_nil _ _
   · intro tcp h; cases h
   · intro e he
@@ -63,16 +68,15 @@ example : BisectConverges Ex.okOps ∧
     change Mode.slowStart (some 0) = _ at h
     cases h
     decide
-  · decide
 
 /-- **Every trap of `step` for an arbitrary state** (no invariant assumed): never `panic`,
-`index` or `assert`; see `step_error_cases`. -/
+`index` or `assert`; `overflow` only when the clock runs backwards (a `u64` time subtraction); see
+`step_error_cases`. -/
 theorem C03_rate_error_cases (ops : FloatOps F) (s : State F) (now : Nat)
     (fb : Option (Feedback F)) (t : Trap) (h : step ops s now fb = .error t) :
     (t = .overflow ∧ ∃ fb', fb = some fb' ∧ fb'.rateLimited = true ∧ ∃ e ∈ s.recvSet, now < e.ts) ∨
     (t = .overflow ∧ ∃ fb' t0, fb = some fb' ∧ s.mode = .slowStart (some t0) ∧
-      lossInc ops s fb' = false ∧
-      (now < t0 ∨ (ops.sToMs (rttOf ops s fb') ≤ now - t0 ∧ u32max < 2 * s.sendRate))) ∨
+      lossInc ops s fb' = false ∧ now < t0) ∨
     (t = .unwrap ∧ fb = none ∧ (∃ exp, s.nofeedbackExp = some exp ∧ exp ≤ now) ∧
       ∃ tcp, s.mode = .eqn tcp ∧ (s.rttS = none ∨ s.recvSet = [])) ∨
     (t = .hang ∧ ∃ fb' ld, fb = some fb' ∧ s.mode = .slowStart ld ∧ lossInc ops s fb' = true ∧
@@ -93,9 +97,9 @@ theorem C03_rate_inv_sent (s : State F) (now now' : Nat) (h : RateInv s now) (hl
 
 theorem C03_rate_inv_step (ops : FloatOps F) (s s' : State F) (now now' : Nat)
     (fb : Option (Feedback F)) (r : Option F) (h : RateInv s now) (hle : now ≤ now')
-    (hmax : s.maxSendRate < 2^31) (hs : step ops s now' fb = .ok (s', r)) :
+    (hs : step ops s now' fb = .ok (s', r)) :
     RateInv s' now' ∧ s'.maxSendRate = s.maxSendRate :=
-  ⟨RateInv_step (h.mono hle) hmax hs, step_maxSendRate hs⟩
+  ⟨RateInv_step (h.mono hle) hs, step_maxSendRate hs⟩
 
 example : ∃ s' r, step Ex.okOps
     (Ex.st (.slowStart (some 0)) 20000 100000 [⟨u32max, 0, true⟩] (some 10)) 50
@@ -103,30 +107,30 @@ example : ∃ s' r, step Ex.okOps
 
 /-! ## runs from `init` -/
 
-/-- **No trap over runs**: ceiling below `2^31`, non-decreasing event times, converging
+/-- **No trap over runs**: any ceiling `m`, non-decreasing event times, converging
 bisection. -/
 theorem C03_rate_run_notrap (ops : FloatOps F) (m : Nat) (evs : List (Event F))
-    (hconv : BisectConverges ops) (hm : m < 2^31) (hnd : nondecreasing 0 evs = true) :
+    (hconv : BisectConverges ops) (hnd : nondecreasing 0 evs = true) :
     ∃ s', run ops (init ops m) evs = .ok s' :=
-  run_notrap_conv hconv (RateInv_init ops m 0) hm hnd
+  run_notrap_conv hconv (RateInv_init ops m 0) hnd
 
 /-- Without the assumption on the bisection the only possible trap of a run is `hang`. -/
 theorem C03_rate_run_only_hang (ops : FloatOps F) (m : Nat) (evs : List (Event F)) (t : Trap)
-    (hm : m < 2^31) (hnd : nondecreasing 0 evs = true)
+    (hnd : nondecreasing 0 evs = true)
     (h : run ops (init ops m) evs = .error t) : t = .hang :=
-  run_error_hang (RateInv_init ops m 0) hm hnd h
+  run_error_hang (RateInv_init ops m 0) hnd h
 
 /-- The invariant holds in every state reached by such a run. -/
 theorem C03_rate_run_inv (ops : FloatOps F) (m : Nat) (evs : List (Event F)) (s' : State F)
-    (hm : m < 2^31) (hnd : nondecreasing 0 evs = true)
+    (hnd : nondecreasing 0 evs = true)
     (h : run ops (init ops m) evs = .ok s') : ∃ t, RateInv s' t :=
-  let ⟨t, _, hinv⟩ := run_RateInv (RateInv_init ops m 0) hm hnd h
+  let ⟨t, _, hinv⟩ := run_RateInv (RateInv_init ops m 0) hnd h
   ⟨t, hinv⟩
 
-example : BisectConverges Ex.okOps ∧ (100000 : Nat) < 2^31 ∧
+example : BisectConverges Ex.okOps ∧
     nondecreasing 0 ([.sent 0, .step 10 (some (Ex.fb 10 5000 0)), .step 30 (some (Ex.fb 10 9000 20)),
       .step 100000 none] : List (Event Nat)) = true :=
-  ⟨Ex.mkOps_converges _ _ _, by decide, by decide⟩
+  ⟨Ex.mkOps_converges _ _ _, by decide⟩
 
 /-! ## the bisection -/
 
@@ -156,14 +160,19 @@ example : ∃ a' b', Narrows Ex.okOps 10 10000 1 0 1000 a' b' :=
 
 /-! ## witnesses -/
 
-/-- The bound `maxSendRate < 2^31` is TIGHT: with the ceiling `2^31`, an RTT sample of 0 (initial
-rate `(4380.0/0.0) as u32 = u32::MAX`, capped to `2^31`) and one more feedback a round trip later,
-`2 * send_rate` overflows `u32` — although time is monotone and the bisection converges. -/
-theorem C03_rate_overflow_witness :
-    ∃ (ops : FloatOps Nat) (evs : List (Event Nat)), BisectConverges ops ∧
-      nondecreasing 0 evs = true ∧ run ops (init ops (2^31)) evs = .error .overflow :=
-  ⟨Ex.satOps, [.sent 0, .step 10 (some (Ex.fb 0 5000 0)), .step 20 (some (Ex.fb 0 5000 0))],
-    Ex.mkOps_converges _ _ _, by decide, trapOf_eq_some (by decide +kernel)⟩
+/-- The run that used to overflow `u32` in the slow-start doubling (`2 * self.send_rate`, before the
+repair to `self.send_rate.saturating_mul(2)`): ceiling `2^31`, an RTT sample of 0 (initial rate
+`(4380.0/0.0) as u32 = u32::MAX`, capped to `2^31`) and one more feedback a round trip later. It now
+returns; the doubled rate saturates and is capped to the ceiling again. The same holds with the
+ceiling `u32::MAX`. -/
+theorem C03_rate_saturate_example :
+    (∃ s', run Ex.satOps (init Ex.satOps (2^31))
+        [.sent 0, .step 10 (some (Ex.fb 0 5000 0)), .step 20 (some (Ex.fb 0 5000 0))] = .ok s' ∧
+      s'.sendRate = 2^31 ∧ s'.mode = .slowStart (some 20)) ∧
+    (∃ s', run Ex.satOps (init Ex.satOps u32max)
+        [.sent 0, .step 10 (some (Ex.fb 0 5000 0)), .step 20 (some (Ex.fb 0 5000 0))] = .ok s' ∧
+      s'.sendRate = u32max ∧ s'.mode = .slowStart (some 20)) :=
+  ⟨⟨_, rfl, by decide +kernel, by decide +kernel⟩, ⟨_, rfl, by decide +kernel, by decide +kernel⟩⟩
 
 /-- A clock going backwards traps (`now_ms - e.timestamp_ms` in `rate_limited_update`). -/
 theorem C03_rate_time_witness :
